@@ -358,7 +358,7 @@ def run_case(spec, monitors=(), obs=False, log=False, baulk_log=False, sim_facto
     elif plan["kind"] == "max_customers":
         steps = [("max_customers", plan["n"], plan.get("method", "Complete"))]
     elif plan["kind"] == "until_deadlock":
-        steps = [("until_deadlock",)]
+        steps = ([("max_time", plan["T_before"])] if plan.get("T_before") else []) + [("until_deadlock",)]
     Q.plan_steps = steps
     try:
         for k, st in enumerate(steps):
